@@ -275,11 +275,9 @@ theorem used_iff_reference_keeps_mixed (files : List SrcFile) (plats : List Plat
 /-- The statement that was left open here: a free-form Fortran text inside C17's guard is cut into nodes exactly as
     `Spec/FortranNodes.lean` groups the lines the C17 reference counts — one node per directive line, one per maximal run of
     counted lines between directive lines (the C analogue is `C05.nodes_of_ok`; `C17.lines_eq_ref` gives the equality of the
-    concatenations).  AS STATED IT IS FALSE (`C06.not_FortranGroupsAreReference`, `Props/C06FortranGroups.lean`): the code reads
-    a continuation line whose `#` opens the text of a statement that began with lone `&` lines as a preprocessor directive
-    (finding class F-C17-2, `C17.finding_F_C17_2`).  With that class excluded (`C06L.fguardN`) it is proved:
-    `C17.nodes_eq_ref`, `C06.fortran_groups_are_reference`; the proof tracks the first character of the joined buffer of
-    `fortran_file_source` along the C17 simulation (`Lemmas/FHeadOK.lean`, `Lemmas/FGroups.lean`). -/
+    concatenations).  PROVED in `Props/C06FortranGroups.lean` (`C06.fortranGroupsAreReference`, from `C17.nodes_eq_ref`).  It was
+    false before the repair of the defect F-C17-2 of the code (a continuation line whose `#` opens the text of a statement that
+    began with lone `&` lines was read as a preprocessor directive; `C17.F_C17_2_fixed`). -/
 def FortranGroupsAreReference : Prop :=
   ∀ (t : List Char) (p : Parsed), fguard t = true → fParseSrc t = .ok p →
     p.nodes.map (fun nd => (nd.kind == CClean.NKind.directive, nd.lines)) = Fortran.refNodes (String.ofList t)
@@ -298,9 +296,8 @@ def LineAttributionIsReferenceMixed : Prop :=
     `setmap_lines` / `specCount` count over) is EXACTLY the attribution written from the specifications alone
     (`specLineAttrL`): every counted line, once, with the platforms whose ISO C reference run keeps its group.  For a C-family
     file inside C05's guard the grouping hypothesis is discharged (`C05.nodes_of_ok`); for a Fortran file it is discharged in
-    `Props/C06FortranGroups.lean` under the full guard `C06L.guardN` (`C06.line_attribution_is_reference_mixed`);
-    `LineAttributionIsReferenceMixed` itself (guard without the F-C17-2 clause) is false for the same reason as
-    `FortranGroupsAreReference`. -/
+    `Props/C06FortranGroups.lean` (`C06.line_attribution_is_reference_mixed`, and `LineAttributionIsReferenceMixed` itself is
+    `C06.lineAttributionIsReferenceMixed`). -/
 theorem line_attribution_is_reference_mixed_partial (files : List SrcFile) (plats : List Plat) (fs : List FileRec)
     (h : analyseL files plats = .ok fs) (hnd : (files.map (·.path)).Nodup) (hacc : RefAcceptsAllL files plats) :
     List.Forall₂ (fun (f : SrcFile) (r : FileRec) => ∃ p, parseSrcL f = .ok p ∧
